@@ -75,7 +75,7 @@ func detectedAll(t triple, r *rng, mixed int) bool {
 	for _, sp := range seps {
 		sp := sp
 		x := instantiate(t, func() string { return sp })
-		for _, v := range []string{x, strings.ToLower(x)} {
+		for _, v := range []string{x, asciiLower(x)} {
 			if b, _ := li.IsSQLi(v); !b {
 				return false
 			}
@@ -295,6 +295,7 @@ type costReport struct {
 	Suspects  []costRow `json:"suspects"`
 	Confirmed []costRow `json:"confirmed_superlinear"`
 	Worst     []costRow `json:"worst_ratios"`
+	Slowest   []costRow `json:"slowest_per_byte"`
 	MaxNsByte float64   `json:"max_ns_per_byte"`
 	Samples   []string  `json:"samples"`
 	WallS     float64   `json:"wall_s"`
@@ -389,6 +390,10 @@ func costMain(args []string) {
 	sort.Slice(rows, func(i, j int) bool { return rows[i].Ratio > rows[j].Ratio })
 	for i := 0; i < 5 && i < len(rows); i++ {
 		rep.Worst = append(rep.Worst, rows[i])
+	}
+	sort.Slice(rows, func(i, j int) bool { return rows[i].T2us/float64(rows[i].N2) > rows[j].T2us/float64(rows[j].N2) })
+	for i := 0; i < 5 && i < len(rows); i++ {
+		rep.Slowest = append(rep.Slowest, rows[i])
 	}
 	for i := 0; i < 6; i++ {
 		f := fams[(i*len(fams))/6]
